@@ -91,6 +91,7 @@ def byronDecode (addr : List Char) : R Bytes := do
       | some (payload, r3) =>
         match cborReadHead r3 with
         | some (1, _, []) => throw .value      -- a negative CBOR integer is never the CRC-32 of the payload
+        | some (0, _, _ :: _) => throw .value   -- bytes after the outer item: refused (every CBOR item must span its whole string)
         | some (0, crc, []) =>
           if crc ≠ crc32 payload then throw .value
           match cborReadHead payload with
@@ -100,14 +101,17 @@ def byronDecode (addr : List Char) : R Bytes := do
               if rootHash.length ≠ 28 then throw .value
               match cborReadHead p2 with
               | some (5, 0, p3) =>
-                if p3 = [0] then pure rootHash else miss
+                if p3 = [0] then pure rootHash else if (match p3 with | 0 :: _ :: _ => true | _ => false) then throw .value else miss
               | some (5, 1, p3) =>
                 match cborReadHead p3 with
                 | some (0, 1, p4) =>
                   match cborReadBytes p4 with
                   | some (inner, p5) =>
                     match cborReadBytes inner with
-                    | some (hdEnc, []) => if p5 = [0] then pure (rootHash ++ hdEnc) else miss
+                    | some (hdEnc, []) =>
+                      if p5 = [0] then pure (rootHash ++ hdEnc)
+                      else if (match p5 with | 0 :: _ :: _ => true | _ => false) then throw .value else miss
+                    | some (_, _ :: _) => throw .value   -- bytes after the byte string inside attribute 1
                     | _ => miss
                   | none => miss
                 | _ => miss
